@@ -48,7 +48,6 @@ SIG_EXT = "external-link-listed-under-target-path"
 SIG_DANGLING = "dangling-link-listing-raises"
 SIG_MV_SUBTREE = "mv-into-own-subtree-loses-collection"
 SIG_MV_ROOT = "mv-of-root-collection-fails-and-leaves-hardlink"
-SIG_ISCOOLER_DANGLING = "is_cooler-raises-on-unresolvable-link"
 SIG_SOFT_BEHIND_EXT = "soft-link-created-behind-external-link"
 
 
@@ -141,10 +140,7 @@ def oracle_step(d, op, outcome, S0, S1, listing, iscool):
             exp = S1["dig"][(f, q)] is not None
             got = iscool[f][q]
             if got != exp:
-                sig = None
-                if not isinstance(got, bool) and S1["status"][(f, q)] in ("missing", "loop"):
-                    sig = SIG_ISCOOLER_DANGLING
-                fails.append(({"rule": "R4 is_cooler", "file": f, "path": q, "got": got, "expected": exp}, sig))
+                fails.append(({"rule": "R4 is_cooler", "file": f, "path": q, "got": got, "expected": exp}, None))
 
     # which slots may legitimately change
     exempt = set()
@@ -493,8 +489,9 @@ def corpus():
         ("D14b external link", [c(A, "/x", 3), o("lns", A, "/x", B, "/e")]),
         ("D14c dangling soft link after mv", [c(A, "/x", 4), o("lns", A, "/x", A, "/y"), o("mv", A, "/x", A, "/z")]),
         ("D14c dangling external link after re-create w", [c(A, "/x", 5), o("lns", A, "/x", B, "/x"), c(A, "/z", 6, "w")]),
-        ("is_cooler on a dangling soft link / below a soft link whose target path has a missing component",
-         [c(A, "/x/y", 4), o("lns", A, "/x/y", A, "/z"), o("mv", A, "/x", A, "/a")]),
+        # fixed D25: is_cooler on a dangling soft link / below a soft link whose target path has a missing component / below a loop
+        ("D25 regression: is_cooler on and below unresolvable links",
+         [c(A, "/x/y", 4), o("lns", A, "/x/y", A, "/z"), o("mv", A, "/x", A, "/a"), o("lns", A, "/x", A, "/x")]),
         ("soft link created below an external link lands in the other file",
          [c(A, "/x/y", 4), c(B, "/z", 5), o("lns", A, "/x/y", B, "/x"), o("lns", B, "/z", B, "/x/y")]),
         # fixed D5: is_cooler on non-existent paths is False (probes /nope, /x/nope on every step)
